@@ -208,6 +208,13 @@ func Cleanup(pipe *pubsub.Queue[fun.Worker], timeout time.Duration) *Service {
 
 			ec := &erc.Collector{}
 
+			// pick up everything that was accepted before the
+			// pipe was closed but that Run had not moved into
+			// the cache when its context was canceled.
+			for item, ok := pipe.Remove(); ok; item, ok = pipe.Remove() {
+				cache.PushBack(item)
+			}
+
 			ec.Add(itertool.ParallelForEach(ctx, cache.PopIterator(),
 				func(ctx context.Context, wf fun.Worker) error {
 					ec.Add(wf.WithRecover().Run(ctx))
